@@ -27,6 +27,9 @@ enum Place {
     AtDeadline,
     BeforeDeadline(i64), // this many ns before the deadline (inside the final back-off nap)
     Never,
+    /// the child is dead and somebody else has already collected it (the process ignores SIGCHLD, a handler or another
+    /// thread called wait): there is no status to be had any more, but the child is certainly not running
+    ReapedElsewhere,
 }
 
 fn backoff_start(j: u32) -> (i64, i64) {
@@ -71,14 +74,18 @@ fn check_poll(ctx: &mut Ctx, p: &mut Popen, expect: Option<ExitStatus>, label: &
     let sleeps = evs.iter().filter(|e| e.kind == k::NANOSLEEP).count();
     let blocking_waits = evs.iter().filter(|e| (e.kind == k::WAIT4 && e.a[1] & libc::WNOHANG as i64 == 0) || (e.kind == k::WAITID && e.a[2] & libc::WNOHANG as i64 == 0)).count();
     let w = J::obj().set("state", J::s(label)).set("events", J::arr_s(&ilog::fmt_tail(&evs, 20)));
-    if sleeps > 0 || blocking_waits > 0 || (t1 - t0) as i64 > ticks as i64 * 1000 + 1000 {
+    if sleeps > 0 || blocking_waits > 0 || (t1 - t0) as i64 > ticks as i64 * vclock::TICK_NS.load(SeqCst) + 1000 {
         ctx.violation(&format!("C11/poll-blocks/{}", label), "poll() slept or issued a blocking wait", w.clone());
     }
     if m.cert.is_some() || m.panic.is_some() {
         ctx.violation(&format!("C11/poll-fails/{}", label), "poll() hung or panicked", w.clone());
     }
     if let Some(r) = m.result {
-        if r != expect {
+        if label == "collected-by-somebody-else" {
+            if r.is_none() {
+                ctx.violation(&format!("C11/poll-wrong/{}", label), "poll() says 'still running' about a child that is dead and gone", w);
+            }
+        } else if r != expect {
             ctx.violation(&format!("C11/poll-wrong/{}", label), &format!("poll() returned {:?}, expected {:?}", r, expect), w);
         }
     }
@@ -95,7 +102,10 @@ fn one(ctx: &mut Ctx, rng: &mut Rng, d_ns: i128, place: Place, code: u8) {
             return;
         }
     };
-    vclock::enable_pure(2, JITTER, rng.next(), 1000, 0);
+    // what one reading of the clock costs on the deterministic clock varies from case to case (1 ns ... 1 ms): code that
+    // reads the clock twice and assumes that nothing has passed in between meets a clock that has moved on
+    let tick: i64 = if d_ns <= 10_000_000_000 { *rng.pick(&[1000i64, 1, 37, 1000, 250_000, 1_000_000]) } else { 1000 };
+    vclock::enable_pure(2, JITTER, rng.next(), tick, 0);
     let truth = ExitStatus::Exited(code as u32);
     let dur = Duration::new((d_ns / 1_000_000_000) as u64, (d_ns % 1_000_000_000) as u32);
     let label = format!("{:?}", place).split('(').next().unwrap().to_string();
@@ -120,6 +130,16 @@ fn one(ctx: &mut Ctx, rng: &mut Rng, d_ns: i128, place: Place, code: u8) {
         Place::AtDeadline => exit_off = Some(d_ns.min(i64::MAX as i128 / 4) as i64),
         Place::BeforeDeadline(x) => exit_off = Some((d_ns.min(i64::MAX as i128 / 4) as i64 - x).max(1)),
         Place::Never => {}
+        Place::ReapedElsewhere => {
+            vclock::plan_exit(1, fifo_fd, pid, b'x', code);
+            vclock::fire_exit();
+            let mut st = 0;
+            unsafe { crate::interpose::real_waitpid(pid, &mut st, 0) };
+            ctx.count("children_collected_by_somebody_else_before_the_query", 1);
+            if rng.chance(500) {
+                check_poll(ctx, &mut p, None, "collected-by-somebody-else");
+            }
+        }
     }
     let wait_before = plan::count(plan::SCOPE_PARENT, k::WAIT4);
     let sleeps_before = vclock::SLEEPS.load(SeqCst);
@@ -133,7 +153,7 @@ fn one(ctx: &mut Ctx, rng: &mut Rng, d_ns: i128, place: Place, code: u8) {
     let elapsed = (t1 - t0) as i128;
     let waits = plan::count(plan::SCOPE_PARENT, k::WAIT4) - wait_before;
     let sleeps = vclock::SLEEPS.load(SeqCst) - sleeps_before;
-    let ticks = (vclock::TICKS.load(SeqCst) - ticks_before) as i128 * 1000;
+    let ticks = (vclock::TICKS.load(SeqCst) - ticks_before) as i128 * tick as i128;
     let fired_at = vclock::EXIT_FIRED_AT.load(SeqCst);
     let exited_during = exit_off.is_some() && fired_at != 0;
     let evs = if ilog::overflowed() { vec![] } else { m.events() };
@@ -172,8 +192,15 @@ fn one(ctx: &mut Ctx, rng: &mut Rng, d_ns: i128, place: Place, code: u8) {
                         ctx.violation(&format!("C11/missed-exit/{}", label), "the child exited before the deadline (by more than the timing slack) but 'still running' was reported", w.clone());
                     }
                 }
-                if matches!(place, Place::Before | Place::Known) {
+                if matches!(place, Place::Before | Place::Known | Place::ReapedElsewhere) {
                     ctx.violation(&format!("C11/missed-exit/{}", label), "the child was already dead but 'still running' was reported", w.clone());
+                }
+            }
+            Some(Ok(Some(_))) if place == Place::ReapedElsewhere => {
+                // whatever it reports as the status (there is none to be had), it reports it at once
+                ctx.count("answers.exited", 1);
+                if elapsed > 100 * MS as i128 + slack {
+                    ctx.violation("C11/late-report/ReapedElsewhere", "the child was dead and gone but wait_timeout took its time to say so", w.clone());
                 }
             }
             Some(Ok(Some(s))) => {
@@ -216,8 +243,12 @@ fn one(ctx: &mut Ctx, rng: &mut Rng, d_ns: i128, place: Place, code: u8) {
         }
     }
     // afterwards: poll on whatever state we are in must not block either
-    let dead_now = exited_during || matches!(place, Place::Before | Place::Known);
-    check_poll(ctx, &mut p, if dead_now { Some(truth) } else { None }, if dead_now { "after-exit" } else { "still-running" });
+    let dead_now = exited_during || matches!(place, Place::Before | Place::Known | Place::ReapedElsewhere);
+    if place == Place::ReapedElsewhere {
+        check_poll(ctx, &mut p, None, "collected-by-somebody-else");
+    } else {
+        check_poll(ctx, &mut p, if dead_now { Some(truth) } else { None }, if dead_now { "after-exit" } else { "still-running" });
+    }
     vclock::disable();
     // cleanup: make sure the child is gone before the handle is dropped
     if !dead_now {
@@ -235,7 +266,7 @@ pub fn run(ctx: &mut Ctx) {
         (0, "0"), (1, "1ns"), (999_000, "999us"), (1_000_000, "1ms"), (3_000_000, "3ms"), (127_000_000, "127ms"), (130_000_000, "130ms"),
         (1_003_000_000, "1.003s"), (10 * s, "10s"), (3600 * s, "1h"), (26 * 86400 * s, "26d"), (315_360_000 * s, "10y"), ((1i128 << 40) * s, "2^40s"),
     ];
-    let places_fixed: Vec<Place> = vec![Place::Before, Place::Known, Place::AtDeadline, Place::Never];
+    let places_fixed: Vec<Place> = vec![Place::Before, Place::Known, Place::AtDeadline, Place::Never, Place::ReapedElsewhere];
     let mut plan_list: Vec<(i128, String, Place)> = vec![];
     for (d, name) in ds.drain(..) {
         for pl in &places_fixed {
